@@ -1,7 +1,7 @@
 """psv.props — which rules decide which property."""
 from . import core
 from .report import Check
-from .rules import cw, ed, mt, ts, vg, pm, ax, kb, dp, sg, uw, sm, fs, tc, ge, nl, sp, gw, rt
+from .rules import cw, ed, mt, ts, vg, pm, ax, kb, dp, sg, uw, sm, fs, tc, ge, nl, sp, gw, rt, st
 from . import selftest
 import functools
 import inspect
@@ -37,7 +37,7 @@ def _resilient(mod):
         setattr(mod, name, make())
 
 
-for _m in (cw, ed, mt, ts, vg, pm, ax, kb, dp, sg, uw, sm, fs, tc, ge, nl, sp, gw, rt):
+for _m in (cw, ed, mt, ts, vg, pm, ax, kb, dp, sg, uw, sm, fs, tc, ge, nl, sp, gw, rt, st):
     _resilient(_m)
 
 
@@ -189,6 +189,7 @@ def c20(tier):
     C.extra["mutators"] = [ts.fshort(f) for f in ts.mutators(P)]
     # an operation given containers of the wrong length refuses them; it does not subscript past their end (assert is not a check)
     kb.kb10(P, C)
+    st.st1(P, C)
     return C.finish()
 
 
@@ -280,6 +281,7 @@ def c15(tier):
     cw.cw1(P, C, only=("splinetable_permute",))
     cw.cw2(P, C, only=("splinetable_permute",))
     C.extra["units"] = sorted(P.units.keys())
+    st.st1(P, C, only=('permuteDimensions',))
     return C.finish()
 
 
@@ -524,6 +526,8 @@ def c14(tier):
     C.extra["not_decided"] = ["convolution integral identity", "convoluted_blossom / divdiff numerics"]
     # the transfer matrix is multiplied INTO the scratch array: it starts from zero
     uw.uw10(P, C)
+    # 'the result is a well-formed table': strides of the convolved shape
+    st.st1(P, C, only=('convolve',))
     return C.finish()
 
 
@@ -592,6 +596,8 @@ def c06(tier):
     fs.fs13(P, C)
     # the layout names the extensions, it does not order them
     sm.fs14(P, C)
+    # the strides the reader reconstructs are the row-major suffix products of the axes it installs
+    st.st1(P, C, only=('read_fits_core',))
     return C.finish()
 
 
@@ -644,6 +650,7 @@ def c09(tier):
     gw.gw9(P, C)
     C.extra["units"] = sorted(P.units.keys())
     C.extra["not_decided"] = ["optimality", "polynomial reproduction", "index arithmetic of box/slicemultiply/kronecker_product", "divided_diffs formula"]
+    st.st1(P, C, only=('fit',))
     return C.finish()
 
 
